@@ -396,6 +396,15 @@ where
             let response_idx = self.state.base.get().wrapping_add(queue.len());
             queue.push_back(ServiceResult::Pending);
 
+            // run the call up to its first suspension point before it is handed to its own task:
+            // limits that the service counts when a call starts (in-flight middleware) must
+            // include this request by the time readiness is checked for the next one
+            if let Poll::Ready(item) = Pin::new(&mut fut).poll(cx) {
+                drop(queue);
+                self.state.handle_result(item, response_idx, self.io.as_ref(), &self.codec);
+                return;
+            }
+
             let st = self.io.get_ref();
             let codec = self.codec.clone();
             let state = self.state.clone();
